@@ -400,7 +400,8 @@ class Engine:
     def empty_dict(self, kt: T.Ty, vt: T.Ty) -> SV:
         t = T.Dict(kt, vt)
         s = self.w.sort(t)
-        vals = self.w.fresh_sort(z3.ArraySort(self.w.sort(kt), self.w.sort(vt)), "nild")
+        # one canonical (unobservable) value array per dict sort: every empty dict is the same term
+        vals = z3.Const(f"nild<{self.w.sort(kt)},{self.w.sort(vt)}>", z3.ArraySort(self.w.sort(kt), self.w.sort(vt)))
         return SV(s.constructor(0)(z3.K(self.w.sort(kt), z3.BoolVal(False)), vals), t, fresh=True)
 
     def _pattern_safe(self, e) -> bool:
@@ -727,9 +728,12 @@ class Engine:
             has, val = s.accessor(0, 0), s.accessor(0, 1)
             kk = z3.Const(f"eqk{next(_cellc)}", self.w.sort(t.args[0]))
             body = self._eq_t(z3.Select(val(x), kk), z3.Select(val(y), kk), t.args[1])
-            return z3.ForAll([kk], z3.And(z3.Select(has(x), kk) == z3.Select(has(y), kk),
-                                          z3.Implies(z3.Select(has(x), kk), body)),
-                             patterns=[z3.Select(has(x), kk), z3.Select(has(y), kk)])
+            qbody = z3.And(z3.Select(has(x), kk) == z3.Select(has(y), kk), z3.Implies(z3.Select(has(x), kk), body))
+            pats = [p_ for p_ in (z3.Select(has(x), kk), z3.Select(has(y), kk)) if self._pattern_safe(p_)]
+            try:
+                return z3.ForAll([kk], qbody, patterns=pats) if pats else z3.ForAll([kk], qbody)
+            except z3.Z3Exception:
+                return z3.ForAll([kk], qbody)
         if k == "obj":
             _, _, accs = self.w.obj(t.name)
             fs = self.w.obj_fields(t.name)
